@@ -8,8 +8,8 @@
     a table with degenerate faces built by CornerTable::Create, see TRAVS).  Can a STREAM make the decoder build such a table?
 
     Answer for the position corner table: NO.  For every declared count, symbol list, split-event list and start-face bit function -
-    degenerate faces created through S, interior start faces glued to non-matching edges (the two _refuted witnesses of
-    Properties_EB.v) included - the table returned by an accepted DecodeConnectivity() satisfies
+    degenerate faces created through S (the _refuted witness of Properties_EB.v) included, and, before the guard of /repo
+    a3a73f7, interior start faces glued to non-matching edges as well - the table returned by an accepted DecodeConnectivity() satisfies
         GetRightCorner(c) = kInvalidCornerIndex   ->   c = LeftMostCorner(Vertex(c))   and hence   IsOnBoundary(Vertex(c)),
     i.e. the unchecked branch is only taken with a valid right corner.  (GetRightCorner(c) = Opposite(Next(c));
     IsOnBoundary(v) = (SwingLeft(LeftMostCorner(v)) = Next(Opposite(Next(LeftMostCorner(v)))) is kInvalidCornerIndex).)
@@ -36,11 +36,12 @@ Proof. exact eb_core_right_corner. Qed.
 Print Assumptions C02_eb_core_right_corner_or_boundary.
 
 (** Examples: the hypotheses are satisfiable on exactly the hostile tables in question.
-    (1) symbols E,L,L + one interior start face glued to non-matching edges (a well-formed 2.2 header: 5 vertices, 4 faces):
-        accepted; corners 0 and 1 have no right corner and are the left-most corners of their vertices. *)
-Example hostile_misglued_start_face :
-  exists n s, eb_full 5 4 0 true [7; 3; 3] [] (fun _ => true) = Ok (n, s) /\
-    faces_of 12 s = [0; 1; 2; 1; 3; 2; 3; 4; 2; 3; 1; 4] /\
+    (1) (symbols E,L,L + one interior start face glued to non-matching edges - accepted when this theorem was first proved - is
+        rejected since /repo a3a73f7: Properties_EB.eb_misglued_start_face_rejected.)  A single triangle: every corner lacks a
+        right corner and is the left-most corner of its vertex. *)
+Example hostile_single_triangle :
+  exists n s, eb_full 3 1 0 true [7] [] (fun _ => false) = Ok (n, s) /\
+    faces_of 3 s = [0; 1; 2] /\
     copp s (next_c 0) = -1 /\ vc s (c2v s 0) = 0 /\ copp s (next_c 1) = -1 /\ vc s (c2v s 1) = 1.
 Proof. eexists. eexists. split; [vm_compute; reflexivity|]. repeat split; vm_compute; reflexivity. Qed.
 
